@@ -678,12 +678,13 @@ HTPdelete(atom_t ddid /* IN: DD id to delete */
     if (HPfreediskblock(file_rec, dd_ptr->offset, dd_ptr->length) == FAIL)
         HGOTO_ERROR(DFE_INTERNAL, FAIL);
 
-    /* Update the disk, etc. */
-    if (HTIupdate_dd(file_rec, dd_ptr) == FAIL)
+    /* Remove the ref # as 'used' in the tag tree & delete from dynarray of refs */
+    /* (this marks the DD as DFTAG_NULL, so it has to happen before the DD is written out) */
+    if (HTIunregister_tag_ref(file_rec, dd_ptr) == FAIL)
         HGOTO_ERROR(DFE_INTERNAL, FAIL);
 
-    /* Remove the ref # as 'used' in the tag tree & delete from dynarray of refs */
-    if (HTIunregister_tag_ref(file_rec, dd_ptr) == FAIL)
+    /* Update the disk, etc. */
+    if (HTIupdate_dd(file_rec, dd_ptr) == FAIL)
         HGOTO_ERROR(DFE_INTERNAL, FAIL);
 
     /* Destroy everything */
